@@ -26,6 +26,8 @@ def gen(rng, kind):
                 b = rng.randint(0, 10) + shift
                 pts.append([b, b + rng.randint(1, 8)])
             coll.append(pts)
+        if kind == "imager" and len(coll) >= 2 and rng.random() < 0.3:
+            coll.insert(rng.randrange(len(coll) + 1), [list(p) for p in coll[0]])      # the first diagram once more
         sets.append(coll)
     ops = []
     for i in range(rng.randint(3, 10)):
@@ -64,7 +66,7 @@ def validate(ctx, items, label, nproc=12):
                         ok, t = 0, 0
                     at.append(t)
                 at += ev["attrs"][7:]
-            evs.append([ev["op"], ev["ds"] + 1, at, [[kx if it["job"]["kind"] == "imager" else kx + 1, d] for kx, d in ev["outs"]], ok, ev["statekey"]])
+            evs.append([ev["op"], ev["ds"] + 1, at, [[kx if it["job"]["kind"] == "imager" else kx + 1, d] for kx, d in ev["outs"]], ok, ev["statekey"], ev.get("empties_ok", 1)])
         init, evs = evs[0], evs[1:]
         if not init[4]:
             ctx.extra["skipped_undecodable_initial_state"] = ctx.extra.get("skipped_undecodable_initial_state", 0) + 1
@@ -108,7 +110,8 @@ def make_items(ctx, n):
             job = dict(kind=kind, datasets=fsets, ops=ops, birth_range=[e.f(0), e.f(4)], pers_range=[e.f(0), e.f(4)], pixel_size=e.f(ps),
                        sigma=float(e.f(1)) ** 2, single_as_array=rng.random() < 0.5,
                        skew=int(rng.random() < 0.65),                                  # 0: (birth, persistence) input, skew=False in every call
-                       njobs=[(rng.choice([0, 0, 1, 2]) if op == 2 else 0) for op, _ in ops])     # transform through the n_jobs branch
+                       njobs=[(rng.choice([0, 0, 1, 2]) if op == 2 else 0) for op, _ in ops],     # transform through the n_jobs branch
+                       empties=int(rng.random() < 0.3), share_equal=int(rng.random() < 0.5))
             tlads = [[0, 0, [1000 * i + j for j in range(len(coll))]] for i, coll in enumerate(sets)]
             ufix = [NOTFIXED, NOTFIXED]
             desc = dict(kind=kind, sets=sets, ops=ops, fixed=["pixel_size=%d" % ps], emb=e.name, job=job)
